@@ -729,6 +729,9 @@ func intValueFromInt(msg protoreflect.Message, val intable) (fhir.Base, error) {
 			}
 			intValue = protoreflect.ValueOfUint32(uint32(val.GetValue()))
 		default:
+			// the target is no integer element: nothing to normalise, the caller
+			// reports the mismatch of the types
+			return nil, nil
 		}
 		container.Set(valueField, intValue)
 		return container.Interface(), nil
